@@ -221,7 +221,7 @@ PROPS["C08"] = {
 }
 
 PROPS["C01"] = {
-    "modules": ["SamlVerif.Props.C01"],
+    "modules": ["SamlVerif.Props.C01", "SamlVerif.Proofs.Tree"],
     "trusted_base": ["symbolic cryptography: signature values, digest values and certificates are tokens; a ledger (built by the harness from every real signing event, honest or attacker) says which key signed which canonical SignedInfo "
                      "and which canonical content a digest token stands for (unforgeability + collision resistance are the hypothesis HonestLedger of C01_no_forgery)",
                      "modelled, not verified: XML tokenisation (xrv, encoding/xml, etree reader) - the model starts from the parsed tree; what encoding/xml extracts from an element (struct views of the Response header, of each candidate Assertion "
